@@ -845,3 +845,62 @@ relies on them — its own `simp` calls do not close these two goals with the co
   rw [List.getElem?_append_right (by omega), List.getElem?_append_right (by omega), Nat.sub_sub]
 
 end Scrut.Exec
+
+namespace Scrut.Exec
+
+theorem findIdx_spec (k : Int) (outs : List Out) (i : Nat)
+    (h : outs.findIdx? (fun o => o.status = .code k) = some i) :
+    ∃ o, outs[i]? = some o ∧ o.status = .code k := by
+  rw [List.findIdx?_eq_some_iff_getElem] at h
+  obtain ⟨hlt, hp, _⟩ := h
+  exact ⟨outs[i], by simp [hlt], by simpa using hp⟩
+
+theorem execScript_skip_wins (tcs : List TC) (c : Int) (outs : List Out)
+    (hc : c ≠ scriptSkip tcs) (h : ∃ o ∈ outs, o.status = .code (scriptSkip tcs)) :
+    ∃ i, execScript tcs (.code c) outs = some (.skipped i) ∧
+      ∃ o, outs[i]? = some o ∧ o.status = .code (scriptSkip tcs) := by
+  unfold execScript
+  generalize scriptSkip tcs = k at *
+  obtain ⟨o, ho, hs⟩ := h
+  cases hf : outs.findIdx? (fun o => o.status = .code k) with
+  | none =>
+    rw [List.findIdx?_eq_none_iff] at hf
+    have := hf o ho
+    simp [hs] at this
+  | some i =>
+    exact ⟨i, by simp [hc, hf], findIdx_spec k outs i hf⟩
+
+theorem execScript_skipped_cause (tcs : List TC) (script : Status) (outs : List Out) (i : Nat)
+    (h : execScript tcs script outs = some (.skipped i)) :
+    (script = .code (scriptSkip tcs) ∧ i = 0) ∨
+    ∃ o, outs[i]? = some o ∧ o.status = .code (scriptSkip tcs) := by
+  simp only [execScript] at h
+  generalize scriptSkip tcs = k at *
+  have key : ∀ r, (match outs.findIdx? (fun o => o.status = .code k) with
+      | some i => some (ExecResult.skipped i)
+      | none => if outs.length ≠ tcs.length then none else some (.ok outs)) = some (.skipped r) →
+      ∃ o, outs[r]? = some o ∧ o.status = .code k := by
+    intro r hr
+    cases hf : outs.findIdx? (fun o => o.status = .code k) with
+    | some j =>
+      rw [hf] at hr
+      simp at hr
+      subst hr
+      exact findIdx_spec k outs j hf
+    | none =>
+      rw [hf] at hr
+      by_cases hl : outs.length = tcs.length <;> simp [hl] at hr
+  cases script with
+  | code c =>
+    simp only at h
+    by_cases hc : c = k
+    · simp [hc] at h
+      exact Or.inl ⟨by rw [hc], h.symm⟩
+    · simp only [hc, if_false] at h
+      exact Or.inr (key i h)
+  | timeout => simp at h
+  | unknown => simp at h
+  | skipped => exact Or.inr (key i h)
+  | detached => exact Or.inr (key i h)
+
+end Scrut.Exec
